@@ -874,6 +874,21 @@ class Pass2(CompilePass):
                             node=dim_range,
                         )
 
+            if decl.array_dims and node.kind not in ('dim_shared', 'static') \
+               and not node.parent_routine.is_static \
+               and all(d.is_const for d in decl.array_dims):
+                # the array lives in the call frame, whose size is a
+                # 16-bit operand of the FRAME instruction
+                n_cells = 3 + 2 * len(decl.array_dims)
+                n_elements = 1
+                for d in decl.array_dims:
+                    n_elements *= d.static_ubound - d.static_lbound + 1
+                if n_cells + n_elements > 0xffff:
+                    raise CompileError(
+                        EC.INVALID_DIMENSIONS,
+                        'Array too large',
+                        node=decl)
+
             if node.parent_routine.has_variable(decl.name) or \
                decl.name in self.compilation.routines:
                 raise CompileError(
